@@ -362,6 +362,7 @@ package websocket
 
 //@ func newMaskKey
 //@ tags C02
+//@ assert at call:ReadFull#1[C02.csprng]: arg0 == rand.Reader && len(arg1) == 4
 
 //@ func (*Conn).writeBufs
 //@ tags C02 C10
@@ -378,6 +379,7 @@ package websocket
 //@ tags C02 C09 C10 C11
 //@ requires !held(c.mu) && c.conn != nil
 //@ modifies WireMods(c)
+//@ ensures[C09.sticky] imp(old(c.writeErr) != nil, c.writeErr == old(c.writeErr))
 //@ ensures[unlocked] !held(c.mu)
 //@ ensures[C09.refuse] imp(old(c.writeErr) != nil, result == old(c.writeErr))
 //@ ensures[C10.failstop] imp(result != nil, c.writeErr != nil)
@@ -397,6 +399,7 @@ package websocket
 //@ mode int bv
 //@ requires !held(c.mu) && c.conn != nil
 //@ modifies WireMods(c), c.g_ctlCount, c.g_ctlType, c.g_ctlCode
+//@ ensures[C09.sticky] imp(old(c.writeErr) != nil, c.writeErr == old(c.writeErr))
 //@ ensures[unlocked] !held(c.mu)
 //@ ensures[ctl] c.g_ctlCount == old(c.g_ctlCount) + 1 && c.g_ctlType == messageType
 //@ ensures[ctlcode]@int c.g_ctlCode == ite(len(data) >= 2, b2i(data[0])*256 + b2i(data[1]), 0 - 1)
@@ -422,3 +425,270 @@ package websocket
 //@ ghost after call:SetWriteDeadline#1 when ret != nil: c.g_wfailed := true
 //@ ghost after call:Write#1 when ret1 != nil: c.g_wfailed := true
 //@ ghost after call:Write#1 when ret1 == nil && messageType == 8: c.g_closeSent := true
+//@ bind mk after call:newMaskKey#1
+//@ assert at call:Write#1[C02.freshkey]@int: imp(!c.isServer, forall(k, 0, 4, arg1[2+k] == mk[k]))
+
+// Message writer.  g_app is the (prophecy) stream of bytes the application
+// hands to the current message writer, g_acc how many it has handed over,
+// g_out how many of them have left in frames; g_wst says a fragmented data
+// message is in progress on the wire (the last data frame had FIN clear).
+//@ ghostfield Conn.g_app stream
+//@ ghostfield Conn.g_acc int
+//@ ghostfield Conn.g_out int
+//@ ghostfield Conn.g_wst bool
+
+//@ pred WBuf(w) := w.c != nil && w.c.conn != nil && !held(w.c.mu) && region(w.c.writeBuf) > 0 && 14 <= w.pos && w.pos <= len(w.c.writeBuf) && 14 < len(w.c.writeBuf) && off(w.c.writeBuf) == 0 && \
+//@     w.c.g_out >= 0 && w.c.g_acc == w.c.g_out + (w.pos - 14) && (isControlT(w.frameType) || isDataT(w.frameType) || w.frameType == 0) && \
+//@     iff(w.frameType == 0, w.c.g_wst) && imp(w.compress, isDataT(w.frameType) && w.c.newCompressionWriter != nil)
+//@ pred WData(w) := forall(j, 14, w.pos, w.c.writeBuf[j] == w.c.g_app[w.c.g_out + j - 14])
+//@ pred BufKept(c) := region(c.writeBuf) == old(region(c.writeBuf)) && len(c.writeBuf) == old(len(c.writeBuf)) && off(c.writeBuf) == old(off(c.writeBuf))
+//@ pred Ended(c, w) := w.err != nil && c.writer == nil && imp(c.writePool != nil, region(c.writeBuf) == 0 && len(c.writeBuf) == 0) && imp(c.writePool == nil, BufKept(c))
+//@ modset MsgMods(w) := w.err, w.pos, w.frameType, w.compress, w.c.isWriting, w.c.writer, w.c.writeBuf, w.c.g_out, w.c.g_acc, w.c.g_wst, region(w.c.writeBuf), WireMods(w.c)
+
+//@ func (*messageWriter).endMessage
+//@ tags C02 C10 C20
+//@ requires w.c != nil
+//@ modifies w.err, w.c.writer, w.c.writeBuf
+//@ ensures result == err
+//@ ensures imp(old(w.err) != nil, w.err == old(w.err) && w.c.writer == old(w.c.writer) && region(w.c.writeBuf) == old(region(w.c.writeBuf)) && len(w.c.writeBuf) == old(len(w.c.writeBuf)))
+//@ ensures imp(old(w.err) == nil, w.err == err && w.c.writer == nil)
+//@ ensures[C20.release] imp(old(w.err) == nil && w.c.writePool != nil, region(w.c.writeBuf) == 0 && len(w.c.writeBuf) == 0)
+//@ ensures[C20.keep] imp(old(w.err) == nil && w.c.writePool == nil, region(w.c.writeBuf) == old(region(w.c.writeBuf)) && len(w.c.writeBuf) == old(len(w.c.writeBuf)) && off(w.c.writeBuf) == old(off(w.c.writeBuf)))
+
+//@ func (BufferPool).Put
+//@ params pool v
+//@ trusted
+//@ pure
+
+// flushFrame.  length = w.pos - 14 + len(extra) payload bytes; the header is
+// back-filled so that it ends at index 14 of writeBuf.
+//@ specfn rfc_minimal(stream, int) bool = "rfc.minimal"
+//@ specfn rfc_rsv2(stream, int) bool = "rfc.rsv2"
+//@ specfn rfc_rsv3(stream, int) bool = "rfc.rsv3"
+
+//@ func (*messageWriter).flushFrame
+//@ tags C01 C02 C09 C10 C20
+//@ mode int bv
+//@ option weakb2i
+//@ let c := w.c
+//@ let length := w.pos - 14 + len(extra)
+//@ let ft := w.frameType
+//@ let cmp := w.compress
+//@ let out0 := w.c.g_out
+//@ requires w.err == nil && WBuf(w) && imp(len(extra) > 0, w.c.isServer) && region(extra) != region(w.c.writeBuf)
+//@ requires@int WData(w) && forall(i, 0, len(extra), extra[i] == w.c.g_app[w.c.g_acc + i])
+//@ modifies MsgMods(w)
+//@ ensures[C09.sticky] imp(old(c.writeErr) != nil, c.writeErr == old(c.writeErr))
+//@ ensures[acc] imp(result != nil, c.g_acc == old(c.g_acc)) && imp(result == nil, c.g_acc == old(c.g_acc) + len(extra))
+//@ ensures[outpos]@int c.g_out >= 0
+//@ ensures[unlocked] !held(c.mu)
+//@ ensures[C10.badctl] imp(isControlT(ft) && (!final || length > 125), \
+//@     result == errInvalidControlFrame && c.conn.g_wn == old(c.conn.g_wn) && c.writeErr == old(c.writeErr) && w.err != nil && c.writer == nil)
+//@ ensures[next] imp(result == nil && !final, w.err == nil && w.pos == 14 && w.frameType == 0 && c.g_wst && c.g_out == out0 + length && c.g_acc == c.g_out && \
+//@     region(c.writeBuf) == old(region(c.writeBuf)) && len(c.writeBuf) == old(len(c.writeBuf)) && off(c.writeBuf) == 0 && !w.compress)
+//@ ensures[done] imp(result == nil && final, w.err != nil && c.writer == nil && c.g_out == out0 + length && imp(isDataT(ft) || ft == 0, !c.g_wst))
+//@ ensures[failed] imp(result != nil, w.err != nil && c.writer == nil)
+//@ ensures[buf] imp(result == nil && !final, BufKept(c)) && imp(result != nil || final, Ended(c, w))
+//@ ensures[wst] imp(isControlT(ft), c.g_wst == old(c.g_wst))
+//@ ensures[C10.failstop] imp(result != nil && !(isControlT(ft) && (!final || length > 125)), c.writeErr != nil)
+//@ ensures[C09.closesent] imp(result == nil && ft == 8, c.writeErr != nil)
+//@ ensures[C20.released] imp(w.err != nil && c.writePool != nil, region(c.writeBuf) == 0)
+//@ assert at call:write#1[C09.type]: arg1 == ft
+//@ assert at call:write#1[C10.deadline]: arg2 == c.writeDeadline
+//@ assert at call:write#1[C02.state]: imp(isDataT(ft), !old(c.g_wst)) && imp(ft == 0, old(c.g_wst)) && imp(isControlT(ft), final && length <= 125)
+//@ assert at call:write#1[C02.hdr]@bv: rfc_opcode(arrayOf(arg3), off(arg3)) == ft && rfc_fin(arrayOf(arg3), off(arg3)) == final && \
+//@     rfc_rsv1(arrayOf(arg3), off(arg3)) == cmp && !rfc_rsv2(arrayOf(arg3), off(arg3)) && !rfc_rsv3(arrayOf(arg3), off(arg3)) && \
+//@     rfc_masked(arrayOf(arg3), off(arg3)) == !c.isServer && rfc_payLen(arrayOf(arg3), off(arg3)) == length && \
+//@     rfc_minimal(arrayOf(arg3), off(arg3)) && !rfc_lenTopBit(arrayOf(arg3), off(arg3)) && \
+//@     len(arg3) == rfc_hdrLen(arrayOf(arg3), off(arg3)) + (old(w.pos) - 14) && len(arg4) == len(extra)
+//@ assert at call:write#1[C02.payload]@int: len(arg3) >= old(w.pos) - 14 && \
+//@     forall(i, 0, old(w.pos) - 14, ite(c.isServer, arg3[len(arg3) - (old(w.pos) - 14) + i], arg3[len(arg3) - (old(w.pos) - 14) + i] ^ arg3[len(arg3) - (old(w.pos) - 14) - 4 + (i&3)]) == c.g_app[out0 + i]) && \
+//@     forall(i, 0, len(arg4), arg4[i] == c.g_app[out0 + (old(w.pos) - 14) + i])
+//@ bind mk after call:newMaskKey#1
+//@ assert at call:write#1[C02.freshkey]@int: imp(!c.isServer, len(arg3) >= old(w.pos) - 14 + 4 && forall(k, 0, 4, arg3[len(arg3) - (old(w.pos) - 14) - 4 + k] == mk[k]))
+//@ ghost after call:write#1 when ret == nil && (isDataT(ft) || ft == 0): c.g_wst := !final
+//@ ghost after call:write#1 when ret == nil: c.g_out := out0 + length
+//@ ghost after call:write#1 when ret == nil: c.g_acc := out0 + length
+
+// Connection-level write state between calls.
+//   curW(c): the messageWriter behind c.writer (directly, or wrapped by the
+//   compression writer, whose g_inner ghost names it).
+//@ ghostfield io.WriteCloser.g_inner ref
+//@ pred curW(c) := ite(c.writer == nil, asPtr(nilref(), "*messageWriter"), ite(typeIs(c.writer, "*messageWriter"), asType(c.writer, "*messageWriter"), asPtr(c.writer.g_inner, "*messageWriter")))
+//@ pred WConn(c) := c.conn != nil && !held(c.mu) && c.writeBufSize > 14 && c.g_acc >= 0 && c.g_out >= 0 && \
+//@     ((region(c.writeBuf) == 0 && len(c.writeBuf) == 0 && c.writePool != nil) || (region(c.writeBuf) > 0 && len(c.writeBuf) > 14 && off(c.writeBuf) == 0)) && \
+//@     imp(c.g_wst && c.writer == nil, c.writeErr != nil)
+//@ pred WOpen(c) := imp(c.writer != nil, curW(c) != nil && ref(curW(c)) < alloc() && curW(c).c == c && curW(c).err == nil && WBuf(curW(c)))
+//@ pred WOpenData(c) := imp(c.writer != nil, WData(curW(c)))
+
+//@ func (BufferPool).Get
+//@ params pool
+//@ results result
+//@ trusted
+//@ modifies
+//@ ensures imp(typeIs(result, "writePoolData"), region(asType(result, "writePoolData").buf) >= old(alloc()) && region(asType(result, "writePoolData").buf) < alloc() && len(asType(result, "writePoolData").buf) > 14 && off(asType(result, "writePoolData").buf) == 0)
+
+//@ func (*messageWriter).ncopy
+//@ tags C01 C02 C10 C20
+//@ results n err
+//@ requires w.err == nil && WBuf(w) && WData(w) && max > 0
+//@ modifies MsgMods(w)
+//@ ensures[C09.sticky] imp(old(w.c.writeErr) != nil, w.c.writeErr == old(w.c.writeErr))
+//@ ensures[ok] imp(err == nil, 0 < n && n <= max && n <= len(w.c.writeBuf) - w.pos && w.err == nil && WBuf(w) && w.c.g_acc == old(w.c.g_acc) && \
+//@     region(w.c.writeBuf) == old(region(w.c.writeBuf)) && len(w.c.writeBuf) == old(len(w.c.writeBuf)))
+//@ ensures[okdata] imp(err == nil, WData(w))
+//@ ensures[oktype] imp(err == nil, isControlT(w.frameType) == isControlT(old(w.frameType)) && imp(isControlT(w.frameType), w.pos == old(w.pos) && w.frameType == old(w.frameType)))
+//@ ensures[fail] imp(err != nil, w.err != nil && w.c.writer == nil && n == 0 && Ended(w.c, w) && w.c.g_acc == old(w.c.g_acc))
+//@ ensures[wst] imp(isControlT(old(w.frameType)), w.c.g_wst == old(w.c.g_wst))
+//@ ensures[outpos] w.c.g_out >= 0
+//@ ensures[C01.room] imp(err != nil && old(w.pos) < old(len(w.c.writeBuf)), false)
+//@ ensures[C10.failstop] imp(err != nil && !isControlT(old(w.frameType)), w.c.writeErr != nil)
+
+//@ func (*messageWriter).Write
+//@ tags C01 C02 C10 C20
+//@ results n err
+//@ let c := w.c
+//@ requires imp(w.err == nil, WBuf(w) && region(p) != region(w.c.writeBuf) && region(p) >= 0) && imp(w.err == nil, WData(w))
+//@ requires imp(w.err == nil, forall(i, 0, len(p), p[i] == w.c.g_app[w.c.g_acc + i]))
+//@ modifies MsgMods(w)
+//@ ensures[C09.sticky] imp(old(c.writeErr) != nil, c.writeErr == old(c.writeErr))
+//@ ensures[closed] imp(old(w.err) != nil, n == 0 && err == old(w.err) && c.conn.g_wn == old(c.conn.g_wn))
+//@ ensures[ok] imp(err == nil, n == len(p) && w.err == nil && WBuf(w) && c.g_acc == old(c.g_acc) + len(p))
+//@ ensures[okdata] imp(err == nil, WData(w))
+//@ ensures[fail] imp(err != nil && old(w.err) == nil, w.err != nil && c.writer == nil && Ended(c, w))
+//@ ensures[buf] imp(err == nil, BufKept(c))
+//@ ensures[ftype] imp(err == nil && isControlT(old(w.frameType)), w.frameType == old(w.frameType)) && imp(err == nil, isControlT(w.frameType) == isControlT(old(w.frameType)))
+//@ ensures[accmono] c.g_acc >= old(c.g_acc) && imp(old(w.err) == nil, c.g_out >= 0)
+//@ ensures[wst] imp(isControlT(old(w.frameType)) || old(w.err) != nil, c.g_wst == old(c.g_wst))
+//@ ensures[C10.failstop] imp(err != nil && old(w.err) == nil && !isControlT(old(w.frameType)), c.writeErr != nil)
+//@ ensures[C01.accept] imp(old(w.err) == nil && err != nil && isControlT(old(w.frameType)) && old(w.pos) - 14 + len(p) <= 125 && old(len(w.c.writeBuf)) >= 139, c.writeErr != nil)
+//@ loop 1 modifies MsgMods(w)
+//@ loop 1 invariant w.err == nil && WBuf(w) && suffixOf(p, old(p)) && c.g_acc == old(c.g_acc) + len(old(p)) - len(p) && len(c.writeBuf) == old(len(c.writeBuf)) && region(c.writeBuf) == old(region(c.writeBuf))
+//@ loop 1 invariant WData(w)
+//@ loop 1 invariant imp(old(c.writeErr) != nil, c.writeErr == old(c.writeErr))
+//@ loop 1 invariant forall(i, 0, len(p), p[i] == c.g_app[c.g_acc + i])
+//@ loop 1 invariant isControlT(w.frameType) == isControlT(old(w.frameType)) && imp(isControlT(w.frameType), w.pos - 14 + len(p) == old(w.pos) - 14 + len(old(p)) && w.frameType == old(w.frameType))
+//@ loop 1 decreases len(p)
+//@ ghost after call:copy#1: c.g_acc := c.g_acc + ret
+
+//@ func (*messageWriter).WriteString
+//@ tags C01 C02 C10
+//@ results n err
+//@ let c := w.c
+//@ requires imp(w.err == nil, WBuf(w)) && imp(w.err == nil, WData(w))
+//@ requires imp(w.err == nil, forall(i, 0, len(p), p[i] == w.c.g_app[w.c.g_acc + i]))
+//@ modifies MsgMods(w)
+//@ ensures[closed] imp(old(w.err) != nil, n == 0 && err == old(w.err) && c.conn.g_wn == old(c.conn.g_wn))
+//@ ensures[ok] imp(err == nil, n == len(p) && w.err == nil && WBuf(w) && c.g_acc == old(c.g_acc) + len(p))
+//@ ensures[okdata] imp(err == nil, WData(w))
+//@ ensures[fail] imp(err != nil && old(w.err) == nil, w.err != nil && c.writer == nil)
+//@ loop 1 modifies MsgMods(w)
+//@ loop 1 invariant w.err == nil && WBuf(w) && suffixOf(p, old(p)) && c.g_acc == old(c.g_acc) + len(old(p)) - len(p) && region(c.writeBuf) == old(region(c.writeBuf))
+//@ loop 1 invariant WData(w)
+//@ loop 1 invariant forall(i, 0, len(p), p[i] == c.g_app[c.g_acc + i])
+//@ loop 1 decreases len(p)
+//@ ghost after call:copy#1: c.g_acc := c.g_acc + ret
+
+//@ func (*messageWriter).Close
+//@ tags C01 C02 C09 C10 C20
+//@ let c := w.c
+//@ requires imp(w.err == nil, WBuf(w)) && imp(w.err == nil, WData(w))
+//@ modifies MsgMods(w)
+//@ ensures[C09.sticky] imp(old(c.writeErr) != nil, c.writeErr == old(c.writeErr))
+//@ ensures[closed] imp(old(w.err) != nil, result == old(w.err) && c.conn.g_wn == old(c.conn.g_wn) && w.err == old(w.err) && BufKept(c) && c.writer == old(c.writer) && c.g_wst == old(c.g_wst) && c.g_out == old(c.g_out))
+//@ ensures[done] imp(old(w.err) == nil, Ended(c, w) && c.g_acc == old(c.g_acc) && c.g_out >= 0)
+//@ ensures[wst] imp(isControlT(old(w.frameType)), c.g_wst == old(c.g_wst))
+//@ ensures[sent] imp(old(w.err) == nil && result == nil, c.g_out == old(c.g_acc) && imp(!isControlT(old(w.frameType)), !c.g_wst))
+//@ ensures[C10.failstop] imp(old(w.err) == nil && result != nil && !(isControlT(old(w.frameType)) && old(w.pos) - 14 > 125), c.writeErr != nil)
+//@ ensures[C09.closesent] imp(old(w.err) == nil && result == nil && old(w.frameType) == 8, c.writeErr != nil)
+//@ ensures[unlocked] imp(old(w.err) == nil, !held(c.mu))
+//@ ensures[C20.released] imp(old(w.err) == nil && c.writePool != nil, region(c.writeBuf) == 0)
+
+// c.writer seen through its interface: a *messageWriter is handled by its own
+// contract (dispatch); anything else is the compression wrapper, which is
+// trusted to forward to the messageWriter named by g_inner.
+//@ func (io.WriteCloser).Close
+//@ params wc
+//@ results err
+//@ trusted
+//@ dispatch (*messageWriter).Close
+//@ let mw := asPtr(wc.g_inner, "*messageWriter")
+//@ requires mw != nil && imp(mw.err == nil, WBuf(mw))
+//@ modifies MsgMods(mw)
+//@ ensures imp(old(mw.c.writeErr) != nil, mw.c.writeErr == old(mw.c.writeErr))
+//@ ensures !held(mw.c.mu)
+//@ ensures imp(old(mw.err) != nil, mw.c.conn.g_wn == old(mw.c.conn.g_wn) && mw.err == old(mw.err) && BufKept(mw.c) && mw.c.writer == old(mw.c.writer) && mw.c.g_wst == old(mw.c.g_wst) && mw.c.g_out == old(mw.c.g_out) && mw.c.g_acc == old(mw.c.g_acc))
+//@ ensures imp(old(mw.err) == nil, Ended(mw.c, mw) && mw.c.g_acc == old(mw.c.g_acc) && mw.c.g_out >= 0)
+//@ ensures imp(isControlT(old(mw.frameType)), mw.c.g_wst == old(mw.c.g_wst))
+//@ ensures imp(old(mw.err) == nil && err == nil && !isControlT(old(mw.frameType)), !mw.c.g_wst)
+//@ ensures imp(old(mw.err) == nil && err != nil && !isControlT(old(mw.frameType)), mw.c.writeErr != nil)
+
+//@ func (io.WriteCloser).Write
+//@ params wc p
+//@ results n err
+//@ trusted
+//@ dispatch (*messageWriter).Write
+//@ let mw := asPtr(wc.g_inner, "*messageWriter")
+//@ requires mw != nil && imp(mw.err == nil, WBuf(mw))
+//@ modifies MsgMods(mw)
+//@ ensures imp(old(mw.c.writeErr) != nil, mw.c.writeErr == old(mw.c.writeErr))
+//@ ensures imp(err == nil, n == len(p) && mw.err == nil && WBuf(mw) && BufKept(mw.c) && mw.c.g_acc >= old(mw.c.g_acc))
+//@ ensures imp(err != nil && old(mw.err) == nil, Ended(mw.c, mw) && mw.c.writeErr != nil)
+//@ ensures imp(old(mw.err) != nil, err == old(mw.err) && BufKept(mw.c) && mw.c.writer == old(mw.c.writer) && mw.c.g_wst == old(mw.c.g_wst))
+//@ ensures !held(mw.c.mu) && mw.c.g_out >= 0 && mw.c.g_acc >= old(mw.c.g_acc) && isControlT(mw.frameType) == isControlT(old(mw.frameType))
+
+//@ func field:Conn.newCompressionWriter
+//@ params c w level
+//@ results result
+//@ trusted
+//@ pure
+//@ ensures result != nil && !typeIs(result, "*messageWriter") && result.g_inner == ref(asType(w, "*messageWriter"))
+
+//@ modset PrevMods(c) := curW(c).err, curW(c).pos, curW(c).frameType, curW(c).compress, c.isWriting, c.writer, c.writeBuf, region(c.writeBuf), c.g_out, c.g_acc, c.g_wst, WireMods(c)
+//@ modset BeginMods(c, mw) := mw.c, mw.frameType, mw.pos, PrevMods(c)
+
+//@ func (*Conn).beginMessage
+//@ tags C01 C02 C09 C10 C20
+//@ requires WConn(c) && WOpen(c) && mw.err == nil && !mw.compress && imp(c.writer != nil, mw != curW(c))
+//@ requires WOpenData(c)
+//@ modifies BeginMods(c, mw)
+//@ ensures[state] WConn(c) && c.writer == nil && !held(c.mu) && c.g_acc == old(c.g_acc)
+//@ ensures[ok] imp(result == nil, mw.c == c && mw.pos == 14 && mw.frameType == messageType && mw.err == nil && !mw.compress && WBuf(mw) && c.g_out == c.g_acc)
+//@ ensures[okdata] imp(result == nil, WData(mw))
+//@ ensures[bufown] region(c.writeBuf) == 0 || region(c.writeBuf) == old(region(c.writeBuf)) || region(c.writeBuf) >= old(alloc())
+//@ ensures[C10.bad] imp(!isControlT(messageType) && !isDataT(messageType), result == errBadWriteOpCode && imp(old(c.writer) == nil, c.conn.g_wn == old(c.conn.g_wn) && c.writeErr == old(c.writeErr)))
+//@ ensures[C09.closed] imp(old(c.writeErr) != nil && (isControlT(messageType) || isDataT(messageType)), result == old(c.writeErr))
+//@ ensures[C01.accept] imp((isControlT(messageType) || isDataT(messageType)) && result != nil, c.writeErr != nil)
+//@ ensures[C20.idle] imp(result != nil && old(c.writer) == nil, region(c.writeBuf) == old(region(c.writeBuf)))
+//@ ghost at exit when result == nil: c.g_out := c.g_acc
+
+//@ func (*Conn).NextWriter
+//@ tags C01 C02 C09 C10 C20
+//@ results wr err
+//@ requires WConn(c) && WOpen(c)
+//@ requires WOpenData(c)
+//@ modifies PrevMods(c)
+//@ ensures[state] WConn(c) && c.g_acc == old(c.g_acc)
+//@ ensures[ok] imp(err == nil, wr != nil && wr == c.writer && WOpen(c) && curW(c).frameType == messageType && curW(c).pos == 14 && c.g_out == c.g_acc && region(curW(c)) >= old(alloc()))
+//@ ensures[okdata] imp(err == nil, WOpenData(c))
+//@ ensures[bufown] region(c.writeBuf) == 0 || region(c.writeBuf) == old(region(c.writeBuf)) || region(c.writeBuf) >= old(alloc())
+//@ ensures[C02.rsv1] imp(err == nil, iff(curW(c).compress, c.newCompressionWriter != nil && c.enableWriteCompression && isDataT(messageType)))
+//@ ensures[plain] imp(err == nil && !(c.newCompressionWriter != nil && c.enableWriteCompression && isDataT(messageType)), typeIs(wr, "*messageWriter"))
+//@ ensures[fail] imp(err != nil, wr == nil && c.writer == nil)
+//@ ensures[C10.bad] imp(!isControlT(messageType) && !isDataT(messageType), err == errBadWriteOpCode && imp(old(c.writer) == nil, c.conn.g_wn == old(c.conn.g_wn) && c.writeErr == old(c.writeErr)))
+//@ ensures[C09.closed] imp(old(c.writeErr) != nil && (isControlT(messageType) || isDataT(messageType)), err == old(c.writeErr))
+//@ ensures[C01.accept] imp((isControlT(messageType) || isDataT(messageType)) && err != nil, c.writeErr != nil)
+
+//@ func (*Conn).WriteMessage
+//@ tags C01 C02 C09 C10 C20
+//@ requires WConn(c) && WOpen(c) && region(data) >= 0 && region(data) != region(c.writeBuf)
+//@ requires WOpenData(c)
+//@ requires forall(i, 0, len(data), data[i] == c.g_app[c.g_acc + i])
+//@ modifies PrevMods(c)
+//@ ensures[state] WConn(c) && c.writer == nil
+//@ ensures[C10.bad] imp(!isControlT(messageType) && !isDataT(messageType), result == errBadWriteOpCode && imp(old(c.writer) == nil, c.conn.g_wn == old(c.conn.g_wn) && c.writeErr == old(c.writeErr)))
+//@ ensures[C09.closed] imp(old(c.writeErr) != nil && (isControlT(messageType) || isDataT(messageType)), result == old(c.writeErr))
+//@ ensures[C09.closesent] imp(result == nil && messageType == 8, c.writeErr != nil)
+//@ ensures[C10.failstop] imp(result != nil && isDataT(messageType), c.writeErr != nil)
+//@ ensures[C01.sent] imp(result == nil && !(c.newCompressionWriter != nil && c.enableWriteCompression && isDataT(messageType)), c.g_acc == old(c.g_acc) + len(data) && c.g_out == c.g_acc && !c.g_wst)
+//@ ghost after call:copy#1: c.g_acc := c.g_acc + ret
